@@ -1,4 +1,5 @@
 CFG = {
+    "coq_crosscheck": ["c05"], "coq_crosscheck_n": 100,
         "group": "c05",
         "level": "proof",
         "coq_targets": ["Properties/C05.vo"],
